@@ -74,6 +74,30 @@ func genC01(t *rapid.T) c01Case {
 		}
 		c.Ops = append(c.Ops, op)
 	}
+	// One scenario in three has a short story spliced in that random operations
+	// rarely spell out (the waits are long enough for failure detection):
+	//   0: a node crashes for good, later the network splits and heals - the
+	//      survivors have to find each other again although a dead node is
+	//      also on their lists;
+	//   1: a node is cut off while another one leaves gracefully, then the
+	//      network heals - the cut-off node hears of the leave only through
+	//      state syncs;
+	//   2: a node leaves while datagrams are being lost, then the loss stops.
+	if rapid.IntRange(0, 2).Draw(t, "story") == 0 {
+		a := rapid.IntRange(0, c.N-1).Draw(t, "story.a")
+		b := (a + 1 + rapid.IntRange(0, c.N-2).Draw(t, "story.b")) % c.N
+		var story []scenOp
+		switch rapid.IntRange(0, 2).Draw(t, "story.kind") {
+		case 0:
+			story = []scenOp{{K: sCrash, A: a}, {K: sWait, V: 600}, {K: sPartition, V: 1 << uint(b)}, {K: sWait, V: 600}, {K: sWait, V: 300}, {K: sHeal}, {K: sWait, V: 300}}
+		case 1:
+			story = []scenOp{{K: sPartition, V: 1 << uint(b)}, {K: sWait, V: 50}, {K: sLeave, A: a}, {K: sWait, V: 600}, {K: sHeal}, {K: sWait, V: 300}}
+		default:
+			story = []scenOp{{K: sLoss, V: 30}, {K: sLeave, A: a}, {K: sWait, V: 300}, {K: sLoss, V: 0}, {K: sWait, V: 150}}
+		}
+		at := rapid.IntRange(0, len(c.Ops)).Draw(t, "story.at")
+		c.Ops = append(append(append([]scenOp{}, c.Ops[:at]...), story...), c.Ops[at:]...)
+	}
 	return c
 }
 
